@@ -590,6 +590,8 @@ func verif_modifies_map[K comparable, V any](m map[K]V) {}
 func verif_modifies_obj[T any](p *T)          {}
 func verif_modifies_all()                     {}
 func verif_modifies_ghost(name string)        {}
+func verif_modifies_ghostflag(name string, x any) {}
+func verif_ghost_flag(name string, x any) bool { return false }
 func verif_ghost_int(name string) int         { return 0 }
 func verif_preserves[T any](p *T)             {}
 func verif_preserves_obj[T any](p *T)         {}
@@ -642,6 +644,8 @@ func (c *Contract) Generate() (string, error) {
 			switch {
 			case m == "all":
 				fmt.Fprintf(&b, "\tverif_modifies_all()\n")
+			case strings.HasPrefix(m, "ghostflag(") && strings.HasSuffix(m, ")"):
+				fmt.Fprintf(&b, "\tverif_modifies_ghostflag(%s)\n", m[10:len(m)-1])
 			case strings.HasPrefix(m, "ghost(") && strings.HasSuffix(m, ")"):
 				fmt.Fprintf(&b, "\tverif_modifies_ghost(%s)\n", m[6:len(m)-1])
 			case strings.HasPrefix(m, "elems(") && strings.HasSuffix(m, ")"):
